@@ -175,9 +175,54 @@ def parse_cbmc_text(out):
 
 TAG = re.compile(r'\[(C\d\d)\]')
 
+# memory gate: units run in parallel threads; each declares its peak memory ('mem_gb', default 3) and waits until the sum of the running
+# ones fits the budget (a few units need 8-10 GB; 14 of them at once would bring the OOM killer, which shows up as "no result")
+import threading
+def _mem_budget():
+    try:
+        kb = int([l for l in open('/proc/meminfo') if l.startswith('MemTotal')][0].split()[1])
+        return max(8.0, kb / 1048576.0 * 0.72)
+    except Exception:
+        return 40.0
+_MEM_BUDGET = float(os.environ.get('VERIF_MEM_BUDGET_GB', '0')) or _mem_budget()
+_mem_used = [0.0]
+_mem_cv = threading.Condition()
+def _mem_acquire(w):
+    w = min(w, _MEM_BUDGET)
+    with _mem_cv:
+        while _mem_used[0] + w > _MEM_BUDGET + 1e-9:
+            _mem_cv.wait()
+        _mem_used[0] += w
+    return w
+def _mem_release(w):
+    with _mem_cv:
+        _mem_used[0] -= w
+        _mem_cv.notify_all()
+
+_MEM_TABLE = None
+def _mem_weight(u):
+    """GB: the unit's own 'mem_gb', else 1.3 x the peak measured earlier (engine/unit_mem.json, committed, refreshed by `vf.py memsurvey`), else 3"""
+    global _MEM_TABLE
+    if _MEM_TABLE is None:
+        try:
+            _MEM_TABLE = json.load(open(os.path.join(VERIF, 'engine', 'unit_mem.json')))
+        except Exception:
+            _MEM_TABLE = {}
+    if 'mem_gb' in u:
+        return float(u['mem_gb'])
+    mb = _MEM_TABLE.get(u['name'])
+    return max(1.5, mb / 1024.0 * 1.3) if mb else 3.0
+
 def run_unit(u, keep=False, mutant=None, timeout=None, verbose=False, trace=False):
     """one verification run; if the SAT back end does not return a verdict for every obligation (status ERROR/UNKNOWN or a
     time-out) the unit is re-run once with CBMC's built-in CaDiCaL before it is called undecided"""
+    w = _mem_acquire(_mem_weight(u))
+    try:
+        return _run_unit_gated(u, keep, mutant, timeout, verbose, trace)
+    finally:
+        _mem_release(w)
+
+def _run_unit_gated(u, keep=False, mutant=None, timeout=None, verbose=False, trace=False):
     r = _run_unit(u, keep, mutant, timeout, verbose, trace)
     bad = r['status'] == 'undecided' and ('timeout' in r['reason'] or 'no verdict' in r['reason'])
     if bad and not u.get('solver') and os.environ.get('VERIF_SOLVER', 'kissat') == 'kissat':
@@ -291,8 +336,13 @@ def _run_unit(u, keep=False, mutant=None, timeout=None, verbose=False, trace=Fal
         cb += u.get('solver', SOLVER)
         cb.append(gb2)
         res['checker_cmd'] = ' '.join(cmd[:-2]) + ' ; ' + ' '.join(cb[:-1])
-        rc, out, err, dt = run(cb, tmo)
+        timed = ['/usr/bin/time', '-f', 'VERIF_MAXRSS_KB %M'] if os.path.exists('/usr/bin/time') else []
+        rc, out, err, dt = run(timed + cb, tmo)
         res['solver_s'] = round(dt, 2)
+        mm = re.search(r'VERIF_MAXRSS_KB (\d+)', err or '')
+        if mm:
+            res['peak_mb'] = int(mm.group(1)) // 1024          # largest process of the cbmc run (cbmc itself or the external SAT solver)
+            err = err.replace(mm.group(0), '').strip()
         if rc == 'timeout':
             res['reason'] = 'cbmc timeout after %ds' % tmo
             return res
@@ -363,8 +413,8 @@ def cmd_unit(args):
     r = run_unit(u, keep=keep, mutant=mutant, verbose='--verbose' in args, trace='--trace' in args)
     n = len(r['obligations'])
     f = [o for o in r['obligations'] if o['status'] == 'FAILURE']
-    print('unit %s: %s  obligations=%d failed=%d solver=%.1fs wall=%.1fs %s' %
-          (name, r['status'], n, len(f), r['solver_s'], r['wall_s'], r['reason']))
+    print('unit %s: %s  obligations=%d failed=%d solver=%.1fs wall=%.1fs peak=%sMB %s' %
+          (name, r['status'], n, len(f), r['solver_s'], r['wall_s'], r.get('peak_mb', '?'), r['reason']))
     if '--all' in args:
         for o in r['obligations']:
             print('  ' + fmt_ob(o))
@@ -410,6 +460,31 @@ def main():
         return cmd_list(sys.argv[2:])
     if c == 'selftest':
         return cmd_selftest(sys.argv[2:])
+    if c == 'memtable':
+        # merge the peaks recorded in evidence/*.json (per_unit[].peak_mb) into engine/unit_mem.json (committed; read by the memory gate)
+        path = os.path.join(VERIF, 'engine', 'unit_mem.json')
+        try:
+            tab = json.load(open(path))
+        except Exception:
+            tab = {}
+        def walk(x):
+            if isinstance(x, dict):
+                if 'unit' in x and x.get('peak_mb'):
+                    tab[x['unit']] = max(tab.get(x['unit'], 0), int(x['peak_mb']))
+                for v in x.values():
+                    walk(v)
+            elif isinstance(x, list):
+                for v in x:
+                    walk(v)
+        for fn in sorted(os.listdir(os.path.join(VERIF, 'evidence'))):
+            if fn.endswith('.json'):
+                walk(json.load(open(os.path.join(VERIF, 'evidence', fn))))
+        for a in sys.argv[2:]:                       # name=MB pairs measured by hand
+            k, v = a.split('=')
+            tab[k] = max(tab.get(k, 0), int(v))
+        json.dump(tab, open(path, 'w'), indent=0, sort_keys=True)
+        print('unit_mem.json: %d units, largest: %s' % (len(tab), sorted(tab.items(), key=lambda kv: -kv[1])[:8]))
+        return 0
     if c == 'check':
         import check
         return check.main(sys.argv[2:])
